@@ -8,6 +8,10 @@ ENV = "GOFLAGS=-mod=mod GOPROXY=off GOSUMDB=off GOTOOLCHAIN=local"
 
 # id -> (technique, level text, level note, design ref)
 CLAIMS = {
+ "C10": ("abstract interpretation over go/ssa (domain nil/non-nil/true/false) of HasKey/Get under the library's found/absent outcomes; must-assign dataflow, commit-after-error and iterator-positioning typestate over go/cfg; registration/link check (go/types)",
+         "Decides sibling agreement of the four adapters structurally, for ALL keys and operation sequences: (S1) every HasKey/Get of every store, transaction and iterator type returns true/false (nil/non-nil error) exactly on the library's found/absent outcome and calls no method on a nil interface value in either; (S2) iterators whose Valid() reads cached fields assign them on every path of Seek, SeekReverse and Next; (S3) no library Commit/Flush is reached after the Update/BulkWrite callback failed, none is deferred unconditionally, (S3b) transaction objects do not write straight to the store handle; (S4) library iterators are positioned before Valid/Key/Value/Item; (S5) driver names the server selects are registered by packages it links. Does not decide key order, seek landing positions, prefix-delete completeness, or cross-driver equality of traversal results.",
+         "Trusted: outcome tables of the store libraries' lookup calls and the rollback behaviour of bolt/badger transaction wrappers (props/c10.go); go/ssa, go/cfg.",
+         "DESIGN.md §4 C10"),
  "C01": ("ownership analysis of the traveler constructors, private-copy classification of in-place writes, dispatch totality over the statement oneof, ordering-domain evaluation of limit/skip/range (go/types AST)",
          "Decides structural necessary conditions for ALL programs and graphs: (O1) AddCurrent/AddMark/Copy never store through their receiver and give the new traveler its own Marks map and Path slice (siblings derived from one traveler do not alias); (O2) the steps of the C01 alphabet write only into travelers whose current element and marks are private deep copies; (O3) every GraphStatement oneof member has an arm in the compiler and in the step inspector, each compile arm returns a processor or an error, every result type has an arm in Convert; (O4) limit/skip/range forward the received traveler unchanged, count each non-signal row once, and forward exactly when the documented predicate holds on every ordering of (row index, bounds). Does not decide row-multiset equality of the moving, filtering or projecting steps.",
          "Trusted: go/types; the ordering-domain evaluator interprets comparison expressions only.",
